@@ -22,7 +22,7 @@ CONSTANTS
   ByMac = TRUE
   RacyStart = FALSE
   NarrowES = FALSE
-  CaptureMACs = {m1, m3}
+  CaptureMACs = {m1}
   MaxLoops = 1
   MaxDepth = 0
   Bounded = FALSE
